@@ -22,7 +22,8 @@ import numpy as np  # noqa: E402
 
 S = Suite(
     "C10",
-    what="multi-level request vs single-level requests and full-column request; returned Z, X, Y",
+    what="multi-level request vs single-level requests and full-column request; returned Z, X, Y; "
+         "top-node slice vs the same node made interior by a thin constant layer on top",
     bound="vertical grids nz 6..33 (closure MOST/CONSTANT and hand-built anisotropic / constant "
           "columns), level selections: ascending, descending, unsorted, with the surface node, with "
           "the top node, one-element, full column (forward and reversed); level argument as python "
@@ -31,7 +32,8 @@ S = Suite(
           "analytic, single and double precision; distinct in-range levels only; a sample",
     rule="slice k of the multi-level result equals the single-level result for levels[k] within "
          "1e-9 (double) / 1e-5 (single) of the slice maximum; Z[k]==z[levels[k]], X[j,i]==i*dx, "
-         "Y[j,i]==j*dy exactly up to 1e-12 relative; shapes (m, ny, nx) squeezed",
+         "Y[j,i]==j*dy exactly up to 1e-12 relative; shapes (m, ny, nx) squeezed; top-node kind at "
+         "max(1e-5 (1e-4 single), 1000*eps*exp(G))",
 )
 
 TOL = {"double": 1e-9, "single": 1e-5}
@@ -254,6 +256,59 @@ def scalar_forms(nx, ny, dx, dy, halo, modes, footprint, analytic, precision, im
                    key="scalar-forms", measured=worst / cx.tol)
 
 
+def growth(z, profiles, nxe, nye, dx, dy):
+    """Rounding amplification estimate of the shooting solve over the whole column and all padded
+    wavenumbers (DESIGN B.1): sum_i Re(lambda_i) dz_i, lambda^2 = (Kx kx^2+Ky ky^2+i(u kx+v ky))/Kz."""
+    u, v, Kx, Ky, Kz = profiles
+    kx = 2.0 * np.pi / (dx * nxe) * np.arange(0, nxe // 2 + 1)
+    ky = 2.0 * np.pi / (dy * nye) * np.arange(-(nye // 2), nye // 2 + 1)
+    KX, KY = np.meshgrid(kx, ky)
+    dz = np.diff(z)
+    G = np.zeros_like(KX)
+    for i in range(len(dz)):
+        lam = np.sqrt((Kx[i] * KX ** 2 + Ky[i] * KY ** 2 + 1j * (u[i] * KX + v[i] * KY)) / Kz[i] + 0j)
+        G += np.abs(lam.real) * dz[i]
+    return float(G.max())
+
+
+@S.kind("top-node")
+def top_node(nx, ny, dx, dy, halo, modes, footprint, precision, im, jm, prof, seed, bg, below,
+             form, delta_rel):
+    """The slice returned for the top node is the solution there: it equals the slice for the same
+    node index on the column extended by one thin layer (thickness delta_rel * last layer) that
+    repeats the top coefficients - the same physical problem, because the upper boundary
+    condition is the constant-coefficient continuation; there the node is interior.  The two
+    discrete problems differ by O(delta^3), so the comparison is at 1e-5 (1e-4 single), not at
+    rounding level."""
+    cx = _Ctx(nx, ny, dx, dy, halo, modes, footprint, False, precision, im, jm, prof, seed, bg)
+    nz = len(cx.z)
+    levels = [int(l) for l in below] + [nz - 1]
+    arg = level_arg(levels, "list" if (form == "int" and len(levels) > 1) else form)
+    h = max(nx * dx, ny * dy) if halo is None else float(halo)
+    G = growth(cx.z, cx.profiles, nx + 2 * int(h / dx), ny + 2 * int(h / dy), dx, dy)
+    tol = max(1e-5 if precision == "double" else 1e-4, 1000.0 * 2.220446049250313e-16 * float(np.exp(min(G, 700.0))))
+    try:
+        _, _, ZA, CA, FA = cx.solve(arg)
+        cx.z = np.append(cx.z, cx.z[-1] + delta_rel * (cx.z[-1] - cx.z[-2]))
+        cx.profiles = tuple(np.append(p, p[-1]) for p in cx.profiles)
+        _, _, ZB, CB, FB = cx.solve(arg)
+    except Exception as e:
+        return Verdict(False, "levels=%s: %s: %s" % (levels, type(e).__name__, str(e)[:160]),
+                       key="raises-top-node")
+    if CA.shape != CB.shape:
+        return Verdict(False, "shapes %s %s" % (CA.shape, CB.shape), key="shape-top-node")
+    m = len(levels)
+    CA, FA, CB, FB = (A.reshape(m, ny, nx) for A in (CA, FA, CB, FB))
+    off = 0.0 if footprint else bg
+    errs = []
+    for k in range(m):
+        errs.append(max(_cmp(CA[k] - off, CB[k] - off), _cmp(FA[k], FB[k])))
+    worst = max(errs)
+    return Verdict(worst <= tol, "levels=%s (top=%d) per-slice relerr vs extended column %s tol %.1e (G=%.1f)" % (
+        levels, nz - 1, ["%.1e" % e for e in errs], tol, G), nontrivial=(G <= 18.0), key="top-node",
+        measured=worst / tol)
+
+
 # ------------------------------------------------------------------ bounded family
 PROFILES = [
     dict(kind="closure", closure="MOST", n=4, zm=4.0, wind=[3.0, 1.0], ustar=0.4, mol=-50.0),
@@ -355,6 +410,13 @@ def generate(tier, rng):
             p = common()
             p["level"] = rng.randrange(nz_of(p["prof"]))
             yield "scalar-forms", p
+        if i % 5 == 0:
+            p = common(analytic=False)
+            del p["analytic"]
+            nz = nz_of(p["prof"])
+            below = sorted(rng.sample(range(nz - 1), rng.randint(0, min(3, nz - 1))))
+            p.update(below=below, form=rng.choice(["list", "array", "int"]), delta_rel=1e-4)
+            yield "top-node", p
 
 
 if __name__ == "__main__":
